@@ -48,7 +48,7 @@ func init() {
 			{Name: "subscribe message written under the subscriber's own context (the repaired defect F20)", File: wsConnGo, Rule: "C18-R9", Key: "wsConnection.subscribe/Subscribe-under-connection-context",
 				Old: "\tsubscribeCtx, subscribeCancel := context.WithTimeout(c.ctx, c.writeTimeout)", New: "\tsubscribeCtx, subscribeCancel := context.WithTimeout(ctx, c.writeTimeout)"},
 			{Name: "failed subscribe removes its table entry with a bare delete", File: "v2/pkg/engine/datasource/graphql_datasource/subscriptionclient/transport/ws_conn.go", Rule: "C18-R8", Key: "wsConnection.subscribe/delete-from-subs",
-				Old: "\t\tc.removeSub(id)\n\t\treturn nil, err\n", New: "\t\tc.subsMu.Lock()\n\t\tdelete(c.subs, id)\n\t\tc.subsMu.Unlock()\n\t\treturn nil, err\n"},
+				Old: "\t\t)\n\t\tc.removeSub(id)\n\t\treturn nil, err\n", New: "\t\t)\n\t\tc.subsMu.Lock()\n\t\tdelete(c.subs, id)\n\t\tc.subsMu.Unlock()\n\t\treturn nil, err\n"},
 			{Name: "headers dropped from the connection key", File: wsTransportGo, Rule: "C18-R1", Key: "key<-Headers",
 				Old: "\t\t_ = opts.Headers.Write(h)\n", New: "\t\t_ = opts.Headers\n"},
 			{Name: "separator between endpoint and subprotocol removed", File: wsTransportGo, Rule: "C18-R1", Key: "separated:WSSubprotocol",
